@@ -742,6 +742,12 @@ func (e *Exec) trCall(x *SCall, env *SpecEnv) TV {
 			e.specFail("astore() of a non-array value")
 		}
 		return TV{Store(a.T, i.T, e.toSort(v.T, e.elemSort(at.Elem()))), a.Ty}
+	case "wordeq":
+		argn(2)
+		a := e.tr(x.Args[0], env)
+		b := e.tr(x.Args[1], env)
+		e.needBitLib()
+		return TV{mk(SBool, "wordeq", e.toSort(a.T, SBV64), e.toSort(b.T, SBV64)), specBoolT}
 	case "wcnt":
 		argn(2)
 		w := e.tr(x.Args[0], env)
